@@ -10,4 +10,19 @@ TEXT = {
         level_text="Exploration: every line-based frame query of the complete finite query universe of each generated mapping (all printing variants: LF/CRLF/CR/mixed, noise and blank lines, permuted class blocks) is answered by mapper, mapper+param-index and cache and compared with an independent executable model of the ProGuard retrace rule. Holds on the executions produced, nothing more; semantic-case counters show which rules were actually exercised.",
         level_note="Trusted: the ~300-line reference model M (transcribed from the statement), the AST printer, rustc overflow checks. Assumes the representable domain and 8-aligned cache buffers.",
     ),
+    "C02": dict(
+        technique="runtime monitor: differential oracle mapper vs cache (write->parse->query) over generated, token-mutated and corpus mappings; ASan and Miri stages for the unsafe Pod casts",
+        level_text="Exploration: for every in-domain input file the complete per-class query universe (classes, methods, lines 0..66 + range boundaries + extremes, parameter strings, throwables, text/typed traces, descriptors) is sent to the mapper and to the cache produced from the same bytes and the answers are compared value for value; the thorough tier repeats a reduced workload under AddressSanitizer and Miri because every cache answer is read through unsafe casts.",
+        level_note="Trusted: the adapter layer that converts library results to neutral values, rustc overflow checks, ASan/Miri. The mapper is the reference as the statement says; who is right is decided by C01/C03/C04.",
+    ),
+    "C03": dict(
+        technique="runtime monitor: reference-model oracle (frames_by_params) over generated mappings with inline groups and repeated entries",
+        level_text="Exploration: every (class, method, parameter string) triple over the name universe of each generated mapping is answered by the mapper built with the parameter index and by the cache and compared with the model (inlined callees dropped, one frame per distinct (obfuscated, args, original), file order, line 0, no file). Counters require answers from classes that are not first in sort order.",
+        level_note="Trusted: reference model M, AST printer. Representable domain, 8-aligned buffers.",
+    ),
+    "C04": dict(
+        technique="runtime monitor: reference-model oracle for class/method lookup + internal-consistency monitor, adversarial name families for binary search",
+        level_text="Exploration: files of 50..400 classes whose obfuscated names are prefixes, '$'/'.' variants, non-ASCII and duplicates of each other; every name, its near misses (extra char, NUL suffix, one char shorter, last char -1, case flip) and unknown strings are looked up through mapper and cache and compared with the model; remap_method is compared with the model's unambiguity rule and cross-checked against every frame remap_frame yields.",
+        level_note="Trusted: reference model M. Representable domain, 8-aligned buffers.",
+    ),
 }
